@@ -83,6 +83,32 @@ for n in XE.__all__:
                 st = type(ex).__name__
             if st not in ('ok', 'AttributeError', 'TypeError', 'ValueError') and not st.startswith(DOC):
                 odd['add_child(%r)' % (bad_child if not isinstance(bad_child, type) else 'a class')] = st
+        # odd VALUES for the element's text and for its first attributes
+        from fractions import Fraction
+        from decimal import Decimal
+        ODDV = [float('nan'), float('inf'), -float('inf'), 10 ** 30, -10 ** 30, True, b'x', [], {}, (1,), 1 + 2j, Fraction(1, 3), Decimal('1.5'), '', ' ', 'x' * 300, 0, -1, 1e-300, object]
+        for v in ODDV:
+            try:
+                c(v); st = 'ok'
+            except Exception as ex:
+                st = type(ex).__name__
+            if st not in ('ok', 'AttributeError', 'TypeError', 'ValueError') and not st.startswith(DOC):
+                odd['value %r' % (v if not isinstance(v, type) else 'a class',)] = st
+        try:
+            e0 = c(xsd_check=False)
+            names = [a.name for a in c.TYPE.get_xsd_attributes()][:4] if c.TYPE.get_xsd_tree().is_complex_type else []
+        except Exception:
+            e0, names = None, []
+        for an in names:
+            if not an:
+                continue
+            for v in ODDV:
+                try:
+                    setattr(e0, an.replace('-', '_'), v); st = 'ok'
+                except Exception as ex:
+                    st = type(ex).__name__
+                if st not in ('ok', 'AttributeError', 'TypeError', 'ValueError') and not st.startswith(DOC):
+                    odd['attribute %s=%r' % (an, v if not isinstance(v, type) else 'a class')] = st
         rec['odd'] = odd
     rec['printed'] = bool(buf.getvalue())
     out.append(rec)
@@ -112,7 +138,7 @@ def class_sweep(rep):
                                          {'class': rec['cls'], 'call': label, 'raises': st})
         for call, st in sorted(rec.get('odd', {}).items()):
             n += 1
-            rep.finding_or_violation('C19:misuse:%s:%s' % (call.split(' xsd_check')[0], st), '%s: %s raises %s' % (rec['cls'], call, st), {'class': rec['cls'], 'call': call, 'raises': st})
+            rep.finding_or_violation('C19:misuse:%s:%s' % (call.split(' xsd_check')[0].split('=')[0].split(' ')[0] + ('-' + call.split(' ')[1].split('=')[0] if call.startswith('attribute') else ''), st), '%s: %s raises %s' % (rec['cls'], call, st), {'class': rec['cls'], 'call': call, 'raises': st})
         if rec['printed']:
             rep.violation('%s writes to stdout/stderr during construction / to_string' % rec['cls'], {'class': rec['cls']})
     return len(recs), n
